@@ -5,7 +5,7 @@
    members (Queries.v).  [no2cycle ms rq j]: no member other than j both requires j and is
    required by j (SurgeryP.v); every acyclic scheduler satisfies it. *)
 From AJ Require Import Common.Util Graph.GModel Graph.Sanitize Graph.Topo Graph.GSpecs
-  Graph.Queries Graph.QueriesP Graph.Surgery Graph.SurgeryP Graph.GSpecs2.
+  Graph.Queries Graph.QueriesP Graph.Surgery Graph.SurgeryP Graph.GSpecs2 Graph.GSpecs2S.
 
 (* ---------------- bypass_and_remove ---------------- *)
 
@@ -187,6 +187,44 @@ Theorem C18_between_spec_model : forall ms rq sc starts ends ks ke,
   c18_between_spec_b ms rq starts ends ks ke ms' rq' = true.
 Proof. exact c18_between_spec_model. Qed.
 Print Assumptions C18_between_spec_model.
+
+(* ... and are sound: whenever they evaluate to true on a result (the implementation's), that
+   result satisfies the statements above *)
+Theorem C18_bypass_spec_sound : forall n ms rq j ms' rq',
+  In j ms -> c18_bypass_spec_b n ms rq j ms' rq' = true ->
+  (forall x, In x ms' <-> In x ms /\ x <> j) /\
+  (forall d r, d < n ->
+     (In r (rq' d) <->
+      (In r (rq d) \/ ((In d ms /\ In j (rq d)) /\ In r (rq j) /\ r <> d)) /\
+      ((In d ms /\ In j (rq d)) -> r <> j))) /\
+  (no2cycle ms rq j ->
+   forall x y, In x ms' -> In y ms' -> (reach rq' ms' x y <-> reach rq ms x y)) /\
+  (closed rq ms -> closed rq' ms') /\
+  (NoDup ms -> closed rq ms -> acyclic rq ms -> NoDup ms' /\ acyclic rq' ms').
+Proof. exact c18_bypass_spec_sound. Qed.
+Print Assumptions C18_bypass_spec_sound.
+
+Theorem C18_keep_only_spec_sound : forall ms rq remains ms' rq',
+  c18_keep_only_spec_b ms rq remains ms' rq' = true ->
+  (forall x, In x ms' <-> In x ms /\ In x remains) /\
+  (forall x r, In x ms' -> (In r (rq' x) <-> In r (rq x) /\ In r ms')) /\
+  closed rq' ms' /\
+  (NoDup ms -> closed rq ms -> acyclic rq ms -> NoDup ms' /\ acyclic rq' ms').
+Proof. exact c18_keep_only_spec_sound. Qed.
+Print Assumptions C18_keep_only_spec_sound.
+
+Theorem C18_between_spec_sound : forall ms rq starts ends ks ke ms' rq',
+  incl starts ms -> incl ends ms ->
+  c18_between_spec_b ms rq starts ends ks ke ms' rq' = true ->
+  (forall x, In x ms' <->
+     (In x ms /\ (starts = [] \/ exists s, In s starts /\ reach rq ms x s)
+              /\ (ends = [] \/ exists e, In e ends /\ reach rq ms e x))
+     \/ (ks = true /\ In x starts) \/ (ke = true /\ In x ends)) /\
+  (forall x r, In x ms' -> (In r (rq' x) <-> In r (rq x) /\ In r ms')) /\
+  closed rq' ms' /\
+  (NoDup ms -> closed rq ms -> acyclic rq ms -> NoDup ms' /\ acyclic rq' ms').
+Proof. exact c18_between_spec_sound. Qed.
+Print Assumptions C18_between_spec_sound.
 
 (* non-vacuity: the chain-with-shortcut 4 -> 3 -> {2, 1} -> 0 (4 requires 3, 3 requires 2 and 1,
    2 and 1 require 0): closed, acyclic; bypassing 3 re-links 4 to 2 and 1; keep_only and
